@@ -145,7 +145,7 @@ func runC01(c *core.Ctx) {
 			}
 			p := dyn.Pairs[ai][bi]
 			r := c.Rand(uint64(pi))
-			shapes := c01Shapes(c, r, c.Pick(8, 400))
+			shapes := c01Shapes(c, r, c.Pick(8, 2500))
 			for si, sh := range shapes {
 				caseID := fmt.Sprintf("%s-%s/s%d", p.A.Name, p.B.Name, si)
 				if !c.Want(caseID) {
